@@ -27,6 +27,7 @@ import (
 	"github.com/dappledger/AnnChain/eth/crypto"
 	"github.com/dappledger/AnnChain/eth/crypto/bn256"
 	"github.com/dappledger/AnnChain/eth/params"
+	"github.com/dappledger/AnnChain/gemmill/verifhook"
 	"golang.org/x/crypto/ripemd160"
 )
 
@@ -121,6 +122,7 @@ func (c *AdminOP) SetCaller(addr common.Address) {
 }
 
 func (c *AdminOP) Run(input []byte) ([]byte, error) {
+	verifhook.Gate("vm.AdminOP.Run") // scheduling point for /verif (empty without build tag verif): before c.caller / c.state are read
 	// `from` below is part of the payload: trust it only when the payload was built by the Admin contract.
 	if c.caller != AdminContractAddress {
 		return nil, fmt.Errorf("admin precompile called by %x, only the admin contract %x may call it", c.caller, AdminContractAddress)
